@@ -25,8 +25,8 @@ RULES["C17"] = (
     "distinct = distinct (fork point, local extra, remote length, blocks handed over, result, full scan?, session ordinal) digests of ended sessions; "
     "non-trivial = a fault, a stop, a second session or a reorganisation of the local chain occurred. "
     "Oracle, always: every AddBlock request of a session carries the height of the previous one + 1 (the first: ancestor + 1), is a child of it by header parent hash, and is not above the "
-    "target; the ancestor is on the local main chain (as of session start), on the remote chain when every finder answer was honest, and the highest shared block when the anchor "
-    "comparison honestly found none and the full scan ran; requests and self-messages only carry the sequence of the running session; SyncStart while running, SyncStart not ahead of "
+    "target; the ancestor is on the local main chain (as of session start), on the remote chain when every finder answer that carried content was truthful (error answers, silence and delays allowed), and then the highest shared block when the anchor "
+    "comparison truthfully found none and the full scan ran (a failed probe may stop the session with an error, never lower the reported ancestor); requests and self-messages only carry the sequence of the running session; SyncStart while running, SyncStart not ahead of "
     "the local tip, SyncStop and answers with a stale sequence have no effect (no emission, no state change); success (SyncStop(nil) from the block processor / nil on NotifyC) only "
     "after all blocks ancestor+1..target were handed over and the chain confirmed the target; exactly one result per session on NotifyC; no panic leaves Syncer.Receive; in the "
     "fault-free sub-batch every session succeeds. Termination (after faults stop): the session ends (success, or an error/stop notification), Syncer.Receive returns, the next SyncStart is "
